@@ -25,6 +25,9 @@ impl C10 {
         boot.set_binary_input(Xbitstr::from(vec![1u8, 2, 3, 4, 5, 6, 7, 8])).expect("input");
         let _ = boot.set_insn_limit(Some(20_000));
         let _ = boot.set_stack_limit(Some(5_000));
+        let _ = std::fs::create_dir_all("/verif/target/scratch");
+        let _ = std::fs::write("/verif/target/scratch/c10-bad-include.xeh", "61 62 + drop\n: from-bad-include 1 ;\nnosuch-in-file 63\n: after-in-file 2 ;\n");
+        let _ = std::fs::write("/verif/target/scratch/c10-bad-include2.xeh", "71 drop 0xZZ 72\n");
         C10 { seed: a.seed, boot }
     }
 }
@@ -115,6 +118,12 @@ const FAILERS: &[(&str, &str)] = &[
     ("\\( never closed", "unterminated-comment"),
     ("local", "local-without-name"),
     ("7 ! true", "store-readonly"),
+    // the failing token sits in text that the source itself pushed on top of its own text
+    ("#( \"3 nosuch-injected\" ~)", "injected-unknown-word"),
+    ("#( \"4 12x 5\" ~)", "injected-bad-literal"),
+    ("#( \"[ 1 2\" \"then\" ~)", "injected-unbalanced"),
+    ("include \"/verif/target/scratch/c10-bad-include.xeh\"", "include-with-unknown-word"),
+    ("require \"/verif/target/scratch/c10-bad-include2.xeh\"", "require-with-bad-literal"),
 ];
 
 const TRAILERS: &[&str] = &[
@@ -157,7 +166,7 @@ fn probe_source(rng: &mut Rng, k: usize) -> (String, &'static str) {
         8 => ("leaked-word".into(), "call-leaked-word"),
         9 => ("leaked-var".into(), "read-leaked-var"),
         10 => ("halfdef".into(), "call-half-definition"),
-        11 => ("LEAKED-CONST".into(), "read-leaked-const"),
+        11 => (rng.pick_str(&["LEAKED-CONST", "from-bad-include", "after-in-file", "leaked2"]).to_string(), "read-leaked-const"),
         12 => ("2 case 1 of 10 endof 2 of 20 endof drop 0 endcase".into(), "case"),
         13 => ("5 begin 1 - dup 0 <= until".into(), "begin-until"),
         14 => ("\"out\" print".into(), "print"),
